@@ -96,8 +96,10 @@ CHECKS = {
                          ('peer-script', 12000, 400000), ('cut', 2000, 80000)],
             'oracles': {'core-cancel': [O.oracle_c07], 'core-ends': [O.oracle_c07], 'core': [O.oracle_c07],
                         'cut': [O.oracle_c07], 'peer-script': [PP.oracle_c07_peer]}, 'level': 'exploration'},
-    'C09': {'profiles': [('core-cancel', 4000, 150000), ('cancel-sweep', 60, 2500), ('core-lease', 1000, 40000)],
-            'oracles': [O.oracle_c09], 'level': 'exploration'},
+    'C09': {'profiles': [('core-cancel', 4000, 150000), ('cancel-sweep', 60, 2500), ('core-lease', 1000, 40000),
+                         ('rx', 3000, 100000)],
+            'oracles': {'core-cancel': [O.oracle_c09], 'cancel-sweep': [O.oracle_c09], 'core-lease': [O.oracle_c09],
+                        'rx': [XRX.oracle_c09_rx]}, 'level': 'exploration'},
     'C11': {'profiles': [('cut', 4000, 150000), ('cut-sweep', 32, 1000), ('cut-sweep-full', 12, 400)],
             'oracles': [O.oracle_c11], 'level': 'fault_enumeration'},
     'C14': {'profiles': [('lease-req', 12000, 400000), ('lease-resp', 3000, 100000)],
